@@ -120,7 +120,7 @@ func (l *RecLog) Stream(ctx context.Context, consumer stream.Consumer, f func(*p
 
 type noTaps struct{}
 
-func (noTaps) Run(ctx context.Context)                                    { <-ctx.Done() }
+func (noTaps) Run(ctx context.Context)                                 { <-ctx.Done() }
 func (noTaps) Dispatch(context.Context, string, *packet.Publish) error { return nil }
 
 // ---- authentication ------------------------------------------------------------------
@@ -183,7 +183,7 @@ type NodeOpts struct {
 	ID      uint64
 	Auth    wasp.AuthenticationHandler
 	PoolMin int32
-	PoolMax int32 // 0 = production range
+	PoolMax int32  // 0 = production range
 	Dir     string // existing data dir (restart); "" = fresh
 }
 
